@@ -40,6 +40,14 @@ type pathState struct {
 	reached map[string]bool
 	lenient int
 	inconcAt string
+	decided map[*Term]bool // conditions already asserted on this path (true) or refuted (false)
+}
+
+func (p *pathState) setDecided(c *Term, v bool) {
+	if p.decided == nil {
+		p.decided = map[*Term]bool{}
+	}
+	p.decided[c] = v
 }
 
 func (in *Interp) assert(t *Term) {
@@ -48,6 +56,13 @@ func (in *Interp) assert(t *Term) {
 	}
 	in.path.pc = append(in.path.pc, t)
 	in.solver.Assert(in.ts, t)
+	if in.path.decided == nil {
+		in.path.decided = map[*Term]bool{}
+	}
+	in.path.decided[t] = true
+	if t.Op == ONot {
+		in.path.decided[t.A[0]] = false
+	}
 }
 
 func (in *Interp) feasible(t *Term) bool {
@@ -80,6 +95,9 @@ func (in *Interp) branch(c *Term, why string) bool {
 		return c.C == 1
 	}
 	p := in.path
+	if v, ok := p.decided[c]; ok {
+		return v
+	}
 	i := len(p.taken)
 	if i < len(p.prefix) {
 		d := p.prefix[i]
@@ -90,6 +108,8 @@ func (in *Interp) branch(c *Term, why string) bool {
 			} else {
 				in.assert(in.ts.Not(c))
 			}
+		} else {
+			p.setDecided(c, d.D == 1)
 		}
 		return d.D == 1
 	}
@@ -99,11 +119,13 @@ func (in *Interp) branch(c *Term, why string) bool {
 	ft := in.feasible(c)
 	if !ft {
 		p.taken = append(p.taken, dec{D: 0, N: 0})
+		p.setDecided(c, false)
 		return false
 	}
 	ff := in.feasible(in.ts.Not(c))
 	if !ff {
 		p.taken = append(p.taken, dec{D: 1, N: 0})
+		p.setDecided(c, true)
 		return true
 	}
 	alt := make([]dec, len(p.taken)+1)
@@ -124,6 +146,8 @@ func (in *Interp) branch(c *Term, why string) bool {
 	return true
 }
 
+var debugPaths = os.Getenv("GOSX_PATHS") != ""
+
 // WhyHist (debugging): histogram of two-sided decisions by reason and function.
 var WhyHist map[string]int
 var whyMu sync.Mutex
@@ -143,7 +167,7 @@ func (in *Interp) branchAt(c *Term, site ssa.Instruction) bool {
 	}
 	n0 := len(in.path.taken)
 	r := in.branch(c, "if")
-	if in.path.taken[n0].N == 2 {
+	if len(in.path.taken) > n0 && in.path.taken[n0].N == 2 {
 		in.siteCount[site]++
 	}
 	return r
@@ -200,12 +224,12 @@ func (in *Interp) concretize(t *Term, why string) *Term {
 		} else {
 			// ask the solver for a value
 			in.solver.define(in.ts, t)
-			r := in.solver.Check()
+			r, v := in.solver.CheckValue(t)
 			if r != Sat {
 				in.path.inconclusive++
 				panic(pathEnd{Verdict{Kind: "INCONCLUSIVE", Label: "concretize " + why}})
 			}
-			cand = in.solver.TermValue(t)
+			cand = v
 		}
 		eq := in.ts.Eq(t, in.constLike(t, cand))
 		if in.branchVal(eq, cand, why) {
@@ -359,6 +383,10 @@ func (in *Interp) resetPath(prefix []dec) {
 	in.syncVC = map[interface{}]vclock{}
 	in.atomicAccess = false
 	in.pureTabs = map[string][]*Term{}
+	in.pureTabsAgg = map[string]*Agg{}
+	in.crcTop = false
+	in.solver.SoftMs = 0
+	in.crcTerms = map[*Term]bool{}
 	in.lockTrace = false
 	in.raceCheck = false
 	in.clockForce = nil
@@ -424,16 +452,15 @@ func (in *Interp) RunPath(fn *ssa.Function, prefix []dec, kf *KnownFindings, har
 				}
 			}
 			// obtain a model of the path condition (outside every known-finding class)
-			if in.solver.Check() == Sat {
-				var vs []*Term
-				for _, nv := range in.path.vars {
-					if nv.T != nil {
-						vs = append(vs, nv.T)
-					}
+			var vs []*Term
+			for _, nv := range in.path.vars {
+				if nv.T != nil {
+					vs = append(vs, nv.T)
 				}
-				in.solver.define2(in.ts, vs)
-				in.solver.Check()
-				res.Model = in.solver.Values(vs)
+			}
+			in.solver.define2(in.ts, vs)
+			if r, m := in.solver.CheckModel(vs); r == Sat {
+				res.Model = m
 			} else {
 				res.Inconc++
 			}
@@ -665,6 +692,9 @@ func (ex *Explorer) Run(fn *ssa.Function) *HarnessResult {
 				res := in.RunPath(fn, item, ex.Known, hr.Name)
 
 				mu.Lock()
+				if debugPaths {
+					fmt.Fprintf(os.Stderr, "PATH %s: %s [%s] decisions=%d steps=%d\n", hr.Name, res.Verdict.String(), res.Verdict.Func, len(res.Taken), res.Steps)
+				}
 				active--
 				hr.Paths++
 				hr.Queries += solver.Queries - q0
